@@ -161,7 +161,7 @@ func sigAlgTable() string {
 	if !ok || src(sw.Tag) != "sig.Algorithm.Signature" {
 		panic(bail{rel + ": third statement of VerifySignature is not `switch sig.Algorithm.Signature`"})
 	}
-	var rows, defs, disp []string
+	var rows, defs, disp, exDisp []string
 	def := false
 	for _, c := range sw.Body.List {
 		cc := c.(*ast.CaseClause)
@@ -180,21 +180,23 @@ func sigAlgTable() string {
 		if !ok {
 			panic(bail{rel + ": unknown SignatureAlgorithm constant " + name})
 		}
-		kind, der, trailingIgnored, prim, rejectLean := sigCase(rel, name, cc.Body)
+		kind, der, trailingIgnored, exact, prim, rejectLean := sigCase(rel, name, cc.Body)
 		rows = append(rows, fmt.Sprintf("(%d, %q, %v, %v, %q)", code, kind, der, trailingIgnored, prim))
 		if der {
 			disp = append(disp, fmt.Sprintf("  | %d => sigReject%s r s\n", code, name))
+			exDisp = append(exDisp, fmt.Sprintf("  | %d => %v\n", code, exact))
 			defs = append(defs, fmt.Sprintf("/-- generated from %s func VerifySignature, case %s: the condition under which the parsed (r, s) is refused -/\ndef sigReject%s (r s : Int) : Bool :=\n  %s\n", rel, name, name, rejectLean))
 		}
 	}
 	if !def {
 		panic(bail{rel + ": VerifySignature switch has no default"})
 	}
-	return fmt.Sprintf("/-- generated from %s func VerifySignature: `switch sig.Algorithm.Signature`\n(wire code, key type asserted, signature is an ASN.1 (r,s) pair, bytes after the pair only logged, primitive called) -/\ndef sigAlgTable : List (Nat × String × Bool × Bool × String) :=\n  [%s]\n\n%s\n/-- the refusal condition of the case taken for wire code `code` -/\ndef sigReject (code : Nat) (r s : Int) : Bool :=\n  match code with\n%s  | _ => false\n", rel, strings.Join(rows, ", "), strings.Join(defs, "\n"), strings.Join(disp, ""))
+	return fmt.Sprintf("/-- generated from %s func VerifySignature: `switch sig.Algorithm.Signature`\n(wire code, key type asserted, signature is an ASN.1 (r,s) pair, bytes after the pair only logged, primitive called) -/\ndef sigAlgTable : List (Nat × String × Bool × Bool × String) :=\n  [%s]\n\n%s\n/-- the refusal condition of the case taken for wire code `code` -/\ndef sigReject (code : Nat) (r s : Int) : Bool :=\n  match code with\n%s  | _ => false\n", rel, strings.Join(rows, ", "), strings.Join(defs, "\n"), strings.Join(disp, "")) +
+		fmt.Sprintf("\n/-- does the case for wire code `code` insist that the octets before `rest` are exactly the DER encoding of (r, s)\n(`if err := checkExactDER(sig.Signature, rest, x); err != nil { return … }`)? -/\ndef sigExactDER (code : Nat) : Bool :=\n  match code with\n%s  | _ => false\n", strings.Join(exDisp, ""))
 }
 
 // sigCase matches one case body of VerifySignature's switch against the two shapes the model interprets.
-func sigCase(rel, name string, body []ast.Stmt) (kind string, der, trailingIgnored bool, prim, rejectLean string) {
+func sigCase(rel, name string, body []ast.Stmt) (kind string, der, trailingIgnored, exact bool, prim, rejectLean string) {
 	fail := func(s ast.Stmt, why string) {
 		panic(bail{fmt.Sprintf("%s: VerifySignature case %s: %s: %s", rel, name, why, src(s))})
 	}
@@ -243,7 +245,7 @@ func sigCase(rel, name string, body []ast.Stmt) (kind string, der, trailingIgnor
 		if i != len(body) {
 			fail(body[i], "unexpected statement after the primitive")
 		}
-		return kind, false, false, prim, rejectLean
+		return kind, false, false, false, prim, rejectLean
 	}
 	ds, ok := s.(*ast.DeclStmt)
 	if !ok {
@@ -286,6 +288,20 @@ func sigCase(rel, name string, body []ast.Stmt) (kind string, der, trailingIgnor
 		t := &tr{sp: Spec{Kind: "i64", Repl: map[string]string{
 			pairVar + ".R.Sign()": "(Int.sign r)", pairVar + ".S.Sign()": "(Int.sign s)"}}}
 		rejectLean = t.expr(is.Cond)
+		s = next()
+	}
+	// optional exactness check (the fix proposed for the C05 finding)
+	if is, ok := s.(*ast.IfStmt); ok && is.Init != nil && strings.HasPrefix(src(is.Init), "err := checkExactDER(") {
+		if src(is.Init) != "err := checkExactDER(sig.Signature, rest, "+pairVar+")" || src(is.Cond) != "err != nil" || !returnsNonNilError(is.Body) || is.Else != nil {
+			fail(s, "unrecognised exactness check")
+		}
+		fb := src(mustFunc(rel, "checkExactDER").Body)
+		for _, need := range []string{"want, err := asn1.Marshal(sig)", "!bytes.Equal(want, encoded[:len(encoded)-len(rest)])"} {
+			if !strings.Contains(fb, need) {
+				panic(bail{rel + ": checkExactDER no longer contains `" + need + "`"})
+			}
+		}
+		exact = true
 		s = next()
 	}
 	is, ok := s.(*ast.IfStmt)
